@@ -86,6 +86,7 @@ static void smallBufferRun() {
       sim_fail(cls, "block %p overlaps a neighbouring live block", (void*)p);
     }
     memset(p, (int)((uintptr_t)p >> 4) & 0xff, N);
+    raceW(p, "small-buffer-block"); // the new owner initialises the block
   };
   auto release = [&](char* p) {
     unsigned char want = (unsigned char)(((uintptr_t)p >> 4) & 0xff);
@@ -95,6 +96,7 @@ static void smallBufferRun() {
         sim_fail(cls, "block %p byte %zu changed while live", (void*)p, i);
       }
     live.erase(p);
+    raceW(p, "small-buffer-block"); // last use by the freeing thread
     dispenso::deallocSmallBuffer<N>(p);
   };
   int running = nThreads;
@@ -118,6 +120,7 @@ static void smallBufferRun() {
         case 3:
           if (!mine.empty()) {
             handoff.push_back(mine.back()); // somebody else frees it
+            sim_race_release(&handoff);     // (the harness hand-off itself is synchronised)
             mine.pop_back();
           }
           break;
@@ -125,6 +128,7 @@ static void smallBufferRun() {
           if (!handoff.empty()) {
             char* p = handoff.back();
             handoff.pop_back();
+            sim_race_acquire(&handoff);
             release(p);
           }
           break;
@@ -135,6 +139,7 @@ static void smallBufferRun() {
     // leftovers go to the hand-off list; the thread exits (its thread-local cache is recycled)
     for (char* p : mine)
       handoff.push_back(p);
+    sim_race_release(&handoff);
     running--;
   };
   std::vector<std::thread> threads;
@@ -242,6 +247,7 @@ static void poolAllocRun() {
         snprintf(cls, sizeof cls, "%s:chunk-live-twice", name);
         sim_fail(cls, "chunk %p handed out twice without dealloc", (void*)p);
       }
+      raceW(p, "pool-chunk"); // the new owner initialises the chunk
     };
     int rounds = range(1, 3);
     for (int r = 0; r < rounds; ++r) {
@@ -257,6 +263,7 @@ static void poolAllocRun() {
               mine.push_back(p);
             } else {
               live.erase(mine.back());
+              raceW(mine.back(), "pool-chunk");
               pool.dealloc(mine.back());
               mine.pop_back();
             }
@@ -264,6 +271,7 @@ static void poolAllocRun() {
           if (sim_step() & 1)
             for (char* p : mine) {
               live.erase(p);
+              raceW(p, "pool-chunk");
               pool.dealloc(p);
             }
         });
